@@ -212,6 +212,21 @@ def check_graph(res, case):
             snkset = set(snk)
             if len(snkset) < n and max(rpos[s] for s in snk) > min(rpos[o] for o in range(n) if o not in snkset):
                 res.violation(key + '/reverse-sinks-first', case, f'sinks {snk} not first: {rorder}')
+        # ---- several traversals of one circuit alive at the same time (generators): each is what it is alone
+        if 'big' not in case:
+            pairs = list(zip(c.reversed_topological_order(), c.reversed_topological_order()))
+            if [a.index for a, _ in pairs] != rorder or [b_.index for _, b_ in pairs] != rorder:
+                res.violation(key + '/reverse-lockstep', case, f'two reversed_topological_order iterations in lock step yield {[(a.index, b_.index) for a, b_ in pairs]}, alone {rorder}')
+            nested = []
+            for x in c.reversed_topological_order():
+                nested.append(x.index)
+                list(c.fanin([x])); next(iter(c.topological_order()), None)
+            if nested != rorder:
+                res.violation(key + '/reverse-nested', case, f'reversed_topological_order with fanin() and topological_order() called inside the loop yields {nested}, alone {rorder}')
+            fw = [a.index for a, _ in zip(c.topological_order(), c.topological_order())]
+            if fw != order:
+                res.violation(key + '/forward-lockstep', case, f'two topological_order iterations in lock step yield {fw}, alone {order}')
+            res.count('concurrent_traversals')
         res.sig((kinds, edges, shift, tuple(order), tuple(rorder)) if 'big' not in case else tuple(case['big']))
         # ---- fan-in for all origin sets
         all_comb = all(k == 'c' for k in kinds)
@@ -416,7 +431,7 @@ def replay(case):
 
 
 def finish(agg, tier):
-    need = ['graphs_with_unconnected_inpin', 'graphs_with_unconnected_outpin', 'nested_results', 'big_graphs', 'rewired_in_place']
+    need = ['graphs_with_unconnected_inpin', 'graphs_with_unconnected_outpin', 'nested_results', 'big_graphs', 'rewired_in_place', 'concurrent_traversals']
     missing = [k for k in need if not agg.counters.get(k)]
     if missing: raise common.HarnessError(f'vacuity guard: {missing} zero')
     return {}
